@@ -5,11 +5,14 @@
 //!        specs-harness dispatch <graphs-file>     (property C11, see dispatch.rs)
 //!        specs-harness conc <cases-file>           (lock-step interleavings, see conc.rs)
 //!        specs-harness conc-stress <file>          (real threads, predicate only)
-//! output: one line per history, the outputs of the ops separated by " | ".
 mod comps;
 #[cfg(has_verif_sched)]
 mod conc;
 mod dispatch;
+//!        specs-harness saveload <histories-file>        (specs::saveload, SimpleMarker)
+//!        specs-harness saveload-uuid <histories-file>   (specs::saveload, UuidMarker)
+//! output: one line per history, the outputs of the ops separated by " | ".
+mod saveload;
 mod world_exec;
 
 use std::io::{BufRead, Write};
@@ -43,6 +46,8 @@ fn main() {
                 eprintln!("the specs sources lack the C10 yield hook (apply hooks/c10_yield.patch)");
                 std::process::exit(3);
             }
+            "saveload" => saveload::run_history::<saveload::Simple>(&ints),
+            "saveload-uuid" => saveload::run_history::<saveload::Uuid>(&ints),
             d => panic!("unknown domain {}", d),
         };
         let parts: Vec<String> = tr
